@@ -81,6 +81,9 @@ func (c *escapeCallsiteInfoImpl) Resolve(callee *ssa.Function) dataflow.EscapeCa
 	}
 	nodes := calleeSummary.nodes
 	g := NewEmptyEscapeGraph(nodes)
+	// The globals (and address-taken functions) referenced by the callee belong to every context of the callee,
+	// exactly as in its arbitrary context: without them, stores to and loads from globals have no effect.
+	addGlobalObjectNodes(callee, g)
 	// Copy over nodes into g that are reachable from the arguments.
 	mappedNodes := map[*Node]bool{}
 	var mapNode func(*Node, *Node)
